@@ -215,7 +215,7 @@ def s_pool_get(eng, st, fr, fn, args, ins):
     key = (p.obj, p.path)
     items = list(pools.get(key, ()))
     conts = []
-    mode = st.ghost.get('pool_mode', 'all')   # all | hit (pooled item if any) | miss
+    mode = eng.opts.get('pool_mode', 'all')   # all | hit (pooled item if any) | miss
     choices = []
     if mode in ('all', 'hit'):
         for i in range(len(items)):
